@@ -20,7 +20,7 @@ sd = os.path.join(a.wt, "SEEDED", a.variant); patch = os.path.join(sd, "patch.di
 
 
 def sh(cmd, cwd, timeout=900):
-    p = subprocess.run(cmd, cwd=cwd, shell=True, stdout=subprocess.PIPE, stderr=subprocess.STDOUT, text=True, timeout=timeout)
+    p = subprocess.run(cmd, cwd=cwd, shell=True, stdout=subprocess.PIPE, stderr=subprocess.STDOUT, text=True, errors="replace", timeout=timeout)
     return p.returncode, p.stdout
 
 
@@ -44,7 +44,7 @@ if not a.skip_confirm:
 
 ids = (a.ids or a.id).split(",")
 res = {}
-p = subprocess.run([sys.executable, os.path.join(ROOT, "selftest", "mutant.py"), "--patch", patch, "--ids", ",".join(ids), "--tier", a.tier, "--seed", a.seed], cwd=ROOT, stdout=subprocess.PIPE, stderr=subprocess.STDOUT, text=True)
+p = subprocess.run([sys.executable, os.path.join(ROOT, "selftest", "mutant.py"), "--patch", patch, "--ids", ",".join(ids), "--tier", a.tier, "--seed", a.seed], cwd=ROOT, stdout=subprocess.PIPE, stderr=subprocess.STDOUT, text=True, errors="replace")
 for line in p.stdout.splitlines():
     for i in ids:
         if line.startswith(i + ": "):
